@@ -234,7 +234,9 @@ def check_create_and_fill(ctx, sch_S, rs, sid, rnd, det0, tries=6):
                 if exists and not seq:
                     ctx.violation("create_and_fill-incomplete", "%s.create_and_fill() returned None though a filling exists" % tname, q)
                 elif exists:
-                    ctx.violation("create_and_fill-incomplete", "%s.create_and_fill(content=%r) returned None though prefix/suffix fillers exist" % (tname, seq), q)
+                    # the statement only says "or nothing" for given content (the library fills
+                    # the prefix greedily, without backtracking): counted, not judged
+                    ctx.count("create_and_fill_none_although_fillers_exist")
                 else:
                     ctx.cover([sid, "caf", "none"])
                 continue
@@ -317,6 +319,9 @@ def _probe(ctx, ast, rnd, maxlen, alphabet):
         return
     if not rs.well_founded():
         ctx.count("probe_not_well_founded")
+        return
+    if rs.strong_dead_ends:
+        ctx.count("probe_dead_end_behind_loop")
         return
     if not schemas.default_fillable(S):
         ctx.count("probe_not_default_fillable")
